@@ -222,8 +222,8 @@ let show_event (e : event) =
     (show_store x.c_state) (show_gstore x.c_gstore)
 
 let show_final (s : pstate) =
-  Printf.sprintf "cnt=%d\tmaxfail=%s:%s:[%s]\tgs=%s\ttrace=%s"
-    (int_of_n s.exprCnt)
+  Printf.sprintf "cnt=%d\tst=%s\tmaxfail=%s:%s:[%s]\tgs=%s\ttrace=%s"
+    (int_of_n s.exprCnt) (show_store s.st)
     (show_pos s.maxFailPos) (if s.maxFailInvert then "1" else "0")
     (String.concat "," (List.map hex_of_bytes s.maxFailExpected))
     (show_gstore s.gs)
